@@ -34,10 +34,13 @@ inductive MOp (N : Type)
   | modify (p : Path) (v : JValue N)
   | restore (p : Path)
 
-/-- For each currently modified path: the value before its first modification. -/
-abbrev Ghost (N : Type) := List (Path × Option (JValue N))
+/-- For each currently modified path: the value found there immediately before its first
+    modification, (a) as it was, (b) with the modifications that were outstanding strictly below the
+    path at that moment undone.  Both readings of "its original value" are accepted when
+    modifications overlap; they coincide otherwise.  (`none` = the path did not exist.) -/
+abbrev Ghost (N : Type) := List (Path × Option (JValue N) × Option (JValue N))
 
-def gLookup {N : Type} (p : Path) : Ghost N → Option (Option (JValue N))
+def gLookup {N : Type} (p : Path) : Ghost N → Option (Option (JValue N) × Option (JValue N))
   | [] => none
   | (q, v) :: r => if p = q then some v else gLookup p r
 
@@ -71,7 +74,7 @@ def putPath {N : Type} (fields : Dict N) : Path → Option (JValue N) → Dict N
 /-- One observed operation: `prev`/`now` are the attribute trees before/after, `ok` whether the call
     returned without an exception.  Returns the violated clause (if any) and the new ghost.
 
-    Modify of an unmodified path `p`: remember the value at `p` with the still-outstanding
+    Modify of an unmodified path `p`: remember the value at `p`, as it is and with the still-outstanding
     modifications strictly below `p` undone (those are subsumed by `p` from now on).
     Restore of `p`: if `p` is modified, the value at `p` must be the remembered one; everything at or
     below `p` stops being tracked (what was recorded below lived inside the value that just went away). -/
@@ -85,11 +88,12 @@ def specStepM {N : Type} [DecidableEq N] (g : Ghost N) (prev : Dict N) (op : MOp
       | some _ => (none, g)
       | none =>
         let below := g.filter (fun e => strictBelow p e.1)
-        let undone := below.reverse.foldl (fun f e => putPath f e.1 e.2) prev
-        (none, g.filter (fun e => !strictBelow p e.1) ++ [(p, getPath undone p)])
+        let undone := below.reverse.foldl (fun f e => putPath f e.1 e.2.2) prev
+        (none, g.filter (fun e => !strictBelow p e.1) ++ [(p, getPath prev p, getPath undone p)])
     | .restore p =>
       let verdict := match gLookup p g with
-        | some expected => if getPath now p = expected then none else some Clause.restoreIdentity
+        | some (asWas, undone) =>
+          if getPath now p = asWas ∨ getPath now p = undone then none else some Clause.restoreIdentity
         | none => none
       (verdict, g.filter (fun e => !isPrefix p e.1))
 
